@@ -70,7 +70,7 @@ theorem b01_or_le (a b : Bool) : b01 (a || b) ≤ b01 a := by cases a <;> cases 
 
 /-- the termination measure -/
 def mu (s : St) : Nat :=
-  muA c s.st + muQ c s.qs s.nextQ + muC s.chan s.nextM + muW s.ws s.nextW + b01 s.initDone + b01 s.stopped
+  muA c s.st + muQ c s.qs s.nextQ + muC s.chan s.nextM + muW s.ws s.nextW + b01 s.initDone + b01 s.stopped + b01 s.ext
 
 /-- the extra well-formedness the measure needs: everything lives inside `0 … n-1` -/
 structure Inv2 (s : St) : Prop where
@@ -403,6 +403,7 @@ theorem step_mu {s s' : St} (hi : Inv c s) (h2 : Inv2 c s) (a : Action) (h : fir
         have e1 : qm c (some q) = (d :: r).length + (c.deps q.t).length + 4 := by simp [qm, hph]
         have e2 : qm c (some { q with ph := QPh.done }) = 1 := rfl
         have e3 : b01 true ≤ b01 s.stopped := by cases s.stopped <;> decide
+        have e4 : b01 true ≤ b01 s.ext := by cases s.ext <;> decide
         simp only [List.length_cons] at e1
         simp only [mu]
         omega
@@ -435,6 +436,7 @@ theorem step_mu {s s' : St} (hi : Inv c s) (h2 : Inv2 c s) (a : Action) (h : fir
         rw [hm] at e
         have : cm (some t) = 4 := rfl
         have : cm none = 0 := rfl
+        have e4 : b01 true ≤ b01 s.ext := by cases s.ext <;> decide
         simp only [mu]
         omega
       · cases h
@@ -523,10 +525,18 @@ theorem step_mu {s s' : St} (hi : Inv c s) (h2 : Inv2 c s) (a : Action) (h : fir
     simp only [fire] at h
     cases h
     by_cases hs : s.stopped = true
-    · left; exact ⟨by cases s; simp_all, fun h => h⟩
+    · by_cases he : s.ext = true
+      · left; exact ⟨by cases s; simp_all, fun h => h⟩
+      · right
+        have e0 : b01 s.ext = 1 := by simp [b01, he]
+        have e1 : b01 true = 0 := rfl
+        have e2 : b01 true ≤ b01 s.stopped := by cases s.stopped <;> decide
+        simp only [mu]
+        omega
     · right
       have e0 : b01 s.stopped = 1 := by simp [b01, hs]
       have e1 : b01 true = 0 := rfl
+      have e4 : b01 true ≤ b01 s.ext := by cases s.ext <;> decide
       simp only [mu]
       omega
 
